@@ -15,7 +15,8 @@ RULE = ("random expression trees (depth <= 4) over registered units, freshly def
         "operands.  distinct = (normal form, operator skeleton); non-trivial = >= 2 operators and the value is not a "
         "registered named unit"
         " Integer exponents also arrive as IntEnum members and bools, prefixes of bases 60/16/1024/3 are mixed in, fundamental dimensions are declared in the middle of the run (the identity maps span the declaration), and refused operations (x ** 2.0, x * \"m\"...) are made on live objects in between."
-        " Prefix trees start from one number spelled in two bases (1024**k over 2**(10k) ...), whose quotient has an exponent of a few 1e-16; an operator that raises anything but its own refusal is a violation.  Table sweeps judge entries through the public constructor only.")
+        " Prefix trees start from one number spelled in two bases (1024**k over 2**(10k) ...), whose quotient has an exponent of a few 1e-16; an operator that raises anything but its own refusal is a violation.  Table sweeps judge entries through the public constructor only."
+        " Refused parses that had formed a product first are followed by the same product in other operand orders.")
 ASSUMPTIONS = [
     "the normal-form model (vmon/model.py) is the reference; named units' factor tables are read from the objects at boot",
     "identity (is) is demanded only when every prefix in the tree shares one base; mixed SI/IEC trees are compared "
